@@ -257,6 +257,15 @@ FIXED = [
 ]
 
 
+# stacks whose view is within 8*N bytes of the 256-byte limit of field_view: a layer whose view grows by a few words
+# pushes them over the limit (they are part of every cover, but not of the fixed catalogue behind the golden files)
+FAT = [
+    [("backup", {}), ("backup", {}), ("backup", {}), ("strided", {"N": 3, "in": "size_t"}), ("array", {"M": 3, "out": "double"})],
+    [("backup", {}), ("backup", {}), ("strided", {"N": 4, "in": "size_t"}), ("array", {"M": 4, "out": "double"})],
+    [("backup", {}), ("backup", {}), ("backup", {}), ("morton", {"N": 3, "in": "size_t", "bmi2": False}), ("array", {"M": 3, "out": "double"})],
+]
+
+
 def finish(spec):
     """Turn a (kind, params) list (outermost first) into full layer dicts by propagating kinds upward."""
     layers = []
@@ -296,8 +305,10 @@ def cover(seed, budget, min_stacks=0, max_depth=5):
     adjacent-kind pair is covered (and at least min_stacks are chosen) or `budget` stacks are chosen."""
     rng = random.Random(f"{seed}:stack-cover")
     chosen, seen_types, covered = [], set(), set()
-    for spec in FIXED:
+    for spec in FIXED + FAT:
         l = finish(spec)
+        if view_size(l)[0] > 256:
+            raise AssertionError("a catalogue stack exceeds the view limit: " + cpp_type(l))
         chosen.append(l)
         seen_types.add(cpp_type(l))
         covered |= features(l)
